@@ -3,6 +3,7 @@ package main
 import (
 	"fmt"
 	"go/types"
+	"math/big"
 	"sort"
 	"strings"
 
@@ -158,8 +159,24 @@ func (u *Unit) heapGet(h Heap, region string) Term {
 		s = SInt
 	}
 	t := u.sc.declare(region+"@0", s)
-	if s == SIface && strings.HasPrefix(region, "G_") && u.eng.globalNonNil()[region] {
-		u.axiomOnce("nonnil:"+region, fmt.Sprintf("(not (= (if-tag %s) 0))", t.S))
+	if strings.HasPrefix(region, "G_") && u.eng.initOnlyGlobals()[region] && u.eng.constInitN[region] == 1 {
+		// written exactly once, in the package initialiser, with a constant: the value is known
+		if c := u.eng.constInit[region]; c != nil {
+			if w, _, ok := isIntegerType(c.Type()); ok {
+				if bi, ok2 := new(big.Int).SetString(c.Value.ExactString(), 10); ok2 {
+					u.axiomOnce("const:"+region, mkEq(t, bvConst(bi, w)).S)
+				}
+			} else if isBoolType(c.Type()) {
+				u.axiomOnce("const:"+region, mkEq(t, Term{c.Value.ExactString(), SBool}).S)
+			}
+		}
+	}
+	if strings.HasPrefix(region, "G_") && u.eng.globalNonNil()[region] {
+		if s == SIface {
+			u.axiomOnce("nonnil:"+region, fmt.Sprintf("(not (= (if-tag %s) 0))", t.S))
+		} else if s == SInt {
+			u.axiomOnce("nonnil:"+region, fmt.Sprintf("(and (> %s 0) (< %s wm@0))", t.S, t.S))
+		}
 	}
 	return t
 }
